@@ -177,6 +177,149 @@ def _plain(v):
 MonoModel.for_loop = _mono_for_loop
 
 
+class WordModel(Model):
+    """a vector of concretely known length whose neighbouring elements stand in the relations of one word over {<,=,>,unordered};
+    every loop bound is concrete, so the function is evaluated as written (loops included) - on relations, never on numbers"""
+    def __init__(self, word):
+        super().__init__()
+        self.word = list(word) if word is not None else []
+        self.n = len(word) + 1 if word is not None else 0
+        self.allow_opaque = False
+
+    def elem(self, i, e):
+        if not (0 <= i < self.n):
+            raise Diverge("index %d out of bounds of a vector of length %d" % (i, self.n), e)
+        return Ref(ValPlace(Num(Rat.atom('v%d' % i))))
+
+    def compare(self, op, a, b, e):
+        if isinstance(a, Num) and isinstance(b, Num):
+            sa, sb = str(a.r), str(b.r)
+            ma, mb = re.match(r'^v(\d+)$', sa), re.match(r'^v(\d+)$', sb)
+            if ma and mb:
+                i, j = int(ma.group(1)), int(mb.group(1))
+                if abs(i - j) != 1:
+                    raise Unsupported("comparison of the non-neighbouring elements %d and %d" % (i, j), e)
+                rel = self.word[min(i, j)]
+                if i > j:
+                    rel = {'lt': 'gt', 'gt': 'lt'}.get(rel, rel)
+                table = {'lt': {'lt': True, 'le': True, 'gt': False, 'ge': False, 'eq': False, 'ne': True},
+                         'eq': {'lt': False, 'le': True, 'gt': False, 'ge': True, 'eq': True, 'ne': False},
+                         'gt': {'lt': False, 'le': False, 'gt': True, 'ge': True, 'eq': False, 'ne': True},
+                         'un': {'lt': False, 'le': False, 'gt': False, 'ge': False, 'eq': False, 'ne': True}}
+                return table[rel][op]
+        return super().compare(op, a, b, e)
+
+    def call(self, name, cal, args, e, frame):
+        last = name.split('::')[-1]
+        a0 = deref_all(args[0]) if args else None
+        nd = cal.get('crate') == 'ndarray' or 'ndarray::' in (cal.get('resolved') or '')
+        if nd and isinstance(a0, Obj) and a0.kind == 'vec':
+            if last in ('len', 'dim', 'len_of'):
+                return Num(self.n)
+            if last == 'index':
+                i = deref_all(args[1])
+                if isinstance(i, Num) and i.const() is not None and i.const().denominator == 1:
+                    return self.elem(int(i.const()), e)
+            if last == 'windows':
+                w = deref_all(args[1])
+                if isinstance(w, Num) and w.const() == 2:
+                    return Obj('cseq', src=[Obj('cwindow', i=i) for i in range(max(0, self.n - 1))], ops=[], pos=0)
+            if last == 'iter':
+                return Obj('cseq', src=[self.elem(i, e) for i in range(self.n)], ops=[], pos=0)
+            if last in ('first', 'last'):
+                return SOME(self.elem(0 if last == 'first' else self.n - 1, e)) if self.n else NONE
+            if last in ('get',):
+                i = deref_all(args[1])
+                if isinstance(i, Num) and i.const() is not None:
+                    return SOME(self.elem(int(i.const()), e)) if 0 <= int(i.const()) < self.n else NONE
+        if nd and isinstance(a0, Obj) and a0.kind == 'cwindow' and last == 'index':
+            j = deref_all(args[1])
+            if isinstance(j, Num) and j.const() in (0, 1):
+                return self.elem(a0.d['i'] + int(j.const()), e)
+        if name == 'std::iter::IntoIterator::into_iter' and isinstance(a0, Obj) and a0.kind == 'cseq':
+            return a0
+        return NotImplemented
+
+    def plain_loop(self, body, frame, e):
+        for _ in range(4 * self.n + 16):
+            try:
+                self.interp.eval(body, Frame(frame))
+            except BreakEx as b:
+                return b.v if b.v is not None else Unit()
+            except ContinueEx:
+                continue
+        raise Unsupported("loop does not end within 4 len + 16 iterations on a vector of length %d" % self.n, e)
+
+
+def _spec_class(word):
+    lt, eq, gt = 'lt' in word, 'eq' in word, 'gt' in word
+    if 'un' in word:
+        return None          # only "not Rising" is required (and, by symmetry of the statement, nothing else is decided here)
+    if lt and gt:
+        return 'N'
+    if lt:
+        return 'Rn' if eq else 'Rs'
+    if gt:
+        return 'Fn' if eq else 'Fs'
+    return 'N'
+
+
+def _class_of(o):
+    o = deref_all(o)
+    if isinstance(o, Enum) and o.adt == MON:
+        if o.variant == 'NotMonotonic':
+            return 'N'
+        st = deref_all(o.fields.get('strict'))
+        if isinstance(st, B):
+            return ('R' if o.variant == 'Rising' else 'F') + ('s' if st.b else 'n')
+    return 'other:%r' % (o,)
+
+
+def bounded_words(chk, lib, body, why, maxlen=None):
+    """fallback when no automaton can be extracted (a formulation with several phases, recursion, manual indices ...): the function is
+    evaluated, as written, on every word of neighbour relations up to a bounded length.  Exhaustive up to that length only - weaker than
+    the automaton proof, and reported as such."""
+    import itertools
+    L = maxlen or (7 if chk.tier == 'thorough' else 5)
+    chk.rule('R12.3', "bounded fallback (only when the automaton of R12.1 cannot be extracted): for every word of neighbour relations over "
+                      "{<,=,>,unordered} up to length %d, evaluating monotonic_prop as written - on relations, no numbers - gives the reference class, "
+                      "and never Rising on a word containing an unordered pair" % L)
+    chk.note('c12_route', 'bounded words up to length %d, because: %s' % (L, why))
+    chk.level = 'exploration'      # bounded, not the proof the automaton route gives
+    vec = Obj('vec')
+    n_words = bad = 0
+    first_bad = None
+    words = [None, []]
+    for l in range(1, L + 1):
+        words += [list(w) for w in itertools.product(RELS, repeat=l)]
+    for w in words:
+        m = WordModel(w)
+        it = Interp(lib, m)
+        n_words += 1
+        try:
+            out = _class_of(it.call_def(body['def'], [Ref(ValPlace(vec))]))
+        except Diverge as ex:
+            out = 'panic: %s' % ex
+        except Unsupported as ex:
+            chk.ob('R12.3', "monotonic_prop evaluates on the word %s: %s" % (w, ex), False, ex.where or body['span'], 'bounded-unrecognised')
+            return
+        if w is None or len(w) == 0:
+            ok = out == 'N'
+        elif 'un' in w:
+            ok = out in ('N', 'Fs', 'Fn', 'Rn') and not out.startswith('Rs') if False else not out.startswith('R') and not out.startswith('panic') and not out.startswith('other')
+        else:
+            ok = out == _spec_class(w)
+        if not ok:
+            bad += 1
+            if first_bad is None:
+                first_bad = (w, out)
+    chk.ob('R12.3', "all %d words up to length %d are classified as the reference classifier does (first deviation: %s)" % (n_words, L, first_bad),
+           bad == 0, body['span'], 'bounded-words')
+    chk.floor('R12.3', 'words evaluated', n_words, 1000)
+    chk.explanation = ("monotonic_prop is written in a form from which no single fold automaton can be extracted (%s); it was instead evaluated as written on "
+                       "all %d words of neighbour relations up to length %d (relations only, no numbers): bounded, not a proof for all lengths." % (why, n_words, L))
+
+
 def run(chk):
     lib = load(chk)
     analyse(chk, lib)
@@ -216,8 +359,10 @@ def analyse(chk, lib, set_text=True):
         except StopRun:
             chk.ob('R12.2', "vector of length %d is classified NotMonotonic before any fold (it reaches the fold, which "
                    "would end in the start state)" % n, False, body['span'], 'short-%d' % n)
-        except (Unsupported, Diverge) as ex:
+        except Diverge as ex:
             chk.ob('R12.2', "vector of length %d: evaluation of the glue failed: %s" % (n, ex), False, ex.where or body['span'], 'short-%d' % n)
+        except Unsupported as ex:
+            return bounded_words(chk, lib, body, "the glue for short vectors is not in the automaton-extraction surface (%s)" % ex)
     # ---- discover the fold
     m, it = fresh('many')
     try:
@@ -226,9 +371,11 @@ def analyse(chk, lib, set_text=True):
         return
     except StopRun:
         pass
-    except (Unsupported, Diverge) as ex:
+    except Diverge as ex:
         chk.ob('R12.2', "unrecognised glue in monotonic_prop: %s" % ex, False, ex.where or body['span'], 'glue-shape')
         return
+    except Unsupported as ex:
+        return bounded_words(chk, lib, body, "no single fold / loop over the neighbouring pairs to extract an automaton from (%s)" % ex)
     loop_form = m.fold is None and m.loopinfo is not None
     if not loop_form and m.fold is None:
         chk.ob('R12.2', "monotonic_prop folds over windows(2) (neither try_fold nor a loop was reached)", False, body['span'], 'glue-shape')
@@ -306,10 +453,12 @@ def analyse(chk, lib, set_text=True):
             s = copy.deepcopy(states[k])
             try:
                 kind, r = fold_step(s)
-            except (Unsupported, Diverge) as ex:
+            except Diverge as ex:
                 chk.ob('R12.1', "fold step on state %r, relation %s is comparison-only and total: %s" % (states[k], rel, ex),
                        False, ex.where or body['span'], 'step-%s-%s' % (states[k], rel))
                 return
+            except Unsupported as ex:
+                return bounded_words(chk, lib, body, "the fold step is not in the automaton-extraction surface (%s)" % ex)
             if kind == 'ok' and isinstance(r, (Enum, LoopState)):
                 k2 = add(r)
                 trans[(k, rel)] = ('ok', k2)
